@@ -288,7 +288,9 @@ func runC18(ctx *Ctx) {
 			}
 		}
 		var tables []*html.Node
-		findAll(d.Root, func(n *html.Node) bool { return n.Type == html.ElementNode && n.Data == "table" && getAttr(n, "id") != "" }, &tables)
+		findAll(d.Root, func(n *html.Node) bool {
+			return n.Type == html.ElementNode && n.Data == "table" && getAttr(n, "id") != ""
+		}, &tables)
 		for _, t := range tables {
 			id := getAttr(t, "id")
 			tp, ok := seen[id]
